@@ -61,6 +61,44 @@ def run(prog, rep):
                         "_get_scipy_parameters(<their own parameter formals, in the order of the parameters>) to the matching scipy function. "
                         "C08.vector: the rows of C07.size - vector-valued parameters give size (n, len(vector)), so one vectorised call equals the calls one at a time.")
 
+_CONVERSIONS = {"numpy.asarray", "numpy.array", "numpy.asanyarray", "numpy.asarray_chkfinite"}
+
+
+def _is_given(t, given):
+    """given itself, or given under a conversion that keeps values and shape (np.asarray(given), ...), on every alternative"""
+    from vstat.terms import top_alts
+    for _lits, a in top_alts(t):
+        if a == given:
+            continue
+        if a[0] == "call" and a[1][0] in ("func", "global") and a[1][1] in _CONVERSIONS and len(a[2]) >= 1 and _is_given(a[2][0], given) \
+                and all(k == "dtype" and v[0] in ("func", "global") and v[1] in ("builtins.float", "numpy.float64") for k, v in a[3]) and len(a[2]) == 1:
+            continue
+        return False
+    return True
+
+
+def _says_scalar(lit, given):
+    """the literal holds for a scalar given (ndim 0) and for no array given: not(np.ndim(given) > 0), np.ndim(given) == 0, np.isscalar(given)"""
+    import operator
+    neg = False
+    while lit[0] == "not":
+        neg, lit = not neg, lit[1]
+    nd = ("call", ("global", "numpy.ndim"), (given,), ())
+    if lit == ("call", ("global", "numpy.isscalar"), (given,), ()):
+        return not neg
+    ops = {">": operator.gt, ">=": operator.ge, "<": operator.lt, "<=": operator.le, "==": operator.eq, "!=": operator.ne}
+    if lit[0] == "cmp" and lit[1] in ops:
+        a, c = lit[2], lit[3]
+        if a == nd and c[0] == "const" and isinstance(c[1], (int, float)):
+            f = lambda n: ops[lit[1]](n, c[1])
+        elif c == nd and a[0] == "const" and isinstance(a[1], (int, float)):
+            f = lambda n: ops[lit[1]](a[1], n)
+        else:
+            return False
+        return all((f(n) != neg) == (n == 0) for n in range(0, 6))
+    return False
+
+
 def values(prog, rep):
     q = f"{CD}._get_param_values"
     fn = prog.func(q)
@@ -71,7 +109,7 @@ def values(prog, rep):
     given = P("given")
     CP = ("attr", SELF, "conditional_parameters")
     FP = ("attr", SELF, "fixed_parameters")
-    from vstat.terms import guarded_alts
+    from vstat.terms import guarded_alts, top_alts
     ret = [s for s in cfg.all_stmts() if isinstance(s, ast.Return)]
     rt = b.term(ret[-1].value, ret[-1])
     # entries (key, value, literals, site): from stores into the returned dict, or from a returned dict comprehension
@@ -100,7 +138,8 @@ def values(prog, rep):
         is_dep = [l for l in pc if l in (("cmp", "in", key, CP), ("cmp", "in", key, ("call", ("attr", CP, "keys"), (), ())))]
         is_fix = [l for l in pc if l in (("not", ("cmp", "in", key, CP)), ("not", ("cmp", "in", key, ("call", ("attr", CP, "keys"), (), ()))))]
         if val[0] == "call":
-            ok = key_ok and bool(is_dep) and val == ("call", ("sub", CP, key), (given,), ())
+            ok = (key_ok and bool(is_dep) and val[:2] == ("call", ("sub", CP, key)) and len(val[2]) == 1 and not val[3]
+                  and _is_given(val[2][0], given))
             dep = st
             rep.check(ok, "C08.values", f"{q}:dependent", fn.where(st), "param_values[K] = conditional_parameters[K](given) for K dependent",
                       f"a dependent parameter must be conditional_parameters[K](given) with the same K and only given as argument, on the 'K in conditional_parameters' branch; found {show(val)[:120]} under {[show(l)[:50] for l in pc]}")
@@ -111,6 +150,23 @@ def values(prog, rep):
                       f"a non-dependent parameter must be fixed_parameters[K] with the same K; found {show(val)[:120]} under {[show(l)[:50] for l in pc]}")
     if dep is None:
         rep.fail("C08.values", f"{q}:dependent", fn.where(), "no store of a dependence-function value found")
+    else:
+        # given is documented as 'float or array_like': the dependence functions do arithmetic on it (x ** c, c * x), which a
+        # list does not have (c * list even repeats it). A bare given may reach them only where it is known to be a scalar.
+        gb = builder(prog, fn, inline=False, guarded=True)
+        bare = []
+        for st in cfg.all_stmts():
+            for call in [n for n in ast.walk(st) if isinstance(n, ast.Call)] if isinstance(st, (ast.Assign, ast.Return, ast.Expr)) else []:
+                t = gb.term(call, st)
+                for _l0, alt in top_alts(t):
+                    if alt[0] == "call" and alt[1][0] == "sub" and alt[1][1] == CP and len(alt[2]) == 1:
+                        for lits, a in top_alts(alt[2][0]):
+                            if a == given and not any(_says_scalar(l, given) for l in tuple(pcs.of(st)) + tuple(lits)):
+                                bare.append(st)
+        rep.check(not bare, "C08.values", f"{q}:dependent:array-like", fn.where(bare[0]) if bare else fn.where(dep),
+                  "a non-scalar given reaches the dependence functions as np.asarray(given)",
+                  "given is 'float or array_like', but a list given reaches the dependence functions unconverted: their arithmetic (x ** c, c * x) "
+                  "raises or repeats the list; convert a non-scalar given with np.asarray first")
     if fix is None:
         rep.fail("C08.values", f"{q}:fixed", fn.where(), "no store of a fixed value found")
     rep.check(fresh, "C08.values", f"{q}:result", fn.where(ret[-1]), "returns the freshly built dict",
